@@ -305,7 +305,11 @@ func (e *Enc) locksAtReturn(in *ssa.Return) {
 		return
 	}
 	if e.fc != nil && (e.fc.Opts["locks"] == "transfer" || e.fc.Opts["locks"] == "release") {
-		e.used["lock hand-off: "+e.fn.String()+" returns holding a lock that a goroutine it spawned releases"] = true
+		if e.fc.Opts["locks"] == "release" {
+			e.used["lock hand-off: "+e.fn.String()+" starts with a lock held that the function which spawned it acquired, and releases it (its precondition states which; proved at the go statement of the spawner)"] = true
+		} else {
+			e.used["lock hand-off: "+e.fn.String()+" returns holding a lock that a goroutine it spawned releases"] = true
+		}
 		return
 	}
 	cur := e.heldArr(e.cur)
